@@ -881,7 +881,14 @@ def rule_own_fields(ctx: Ctx, rep: Report) -> None:
     rule_own_fields_forwarded(ctx, rep, "C05.own_fields", ('btclib.tx', 'btclib.block.block_header', 'btclib.p2p', 'btclib.bip32.key_origin', 'btclib.key'), 10)
 
 
+def rule_params_forwarded_(ctx: Ctx, rep: Report) -> None:
+    """C05.params_forwarded: a parameter is handed on to callees that have a parameter of the same name (see sigcommon.rule_params_forwarded)."""
+    from rules.sigcommon import rule_params_forwarded
+    rule_params_forwarded(ctx, rep, "C05.params_forwarded", ('btclib.tx', 'btclib.block.block_header', 'btclib.p2p', 'btclib.var_', 'btclib.utils'), 40)
+
+
 RULES = [
+    ("C05.params_forwarded", rule_params_forwarded_),
     ("C05.own_fields", rule_own_fields),
     ("C05.psbt_whole_key", rule_psbt_whole_key),
     ("C05.witness_gate", rule_witness_gate),
